@@ -52,13 +52,13 @@ CHECKS = {
    engine="govl",
    category="fault_enumeration", design_ref="DESIGN.md §4 C20",
    text="The real build/cache code (Store, Load, serialize, deserialize, key derivation, real gzip and gob) is rebuilt with its os import bound to a simulated file system, so every file-system call is a crash point, a fault point and a scheduling point. Enumerated: a crash before every file-system call of a Store under the kill model and several seeded power-loss resolutions, with and without a previous complete entry; truncation at every length and bit flips at every byte of stored entries; an I/O error, short write or ENOSPC at every call of Store and Load; every ordered pair of configurations (one field at a time, all at once, adversarial quoting) x import paths; a staleness grid; the package under test. Explored: rapid-generated sequences of Store/Load/Clear/damage/crash-restart/I/O-fault/concurrent-process operations (processes interleaved at file-system-call granularity by the seeded scheduler), shrunk by rapid and replayed from its fail file. Oracle: a reference map from (configuration fields, import path) to stored entries; a hit must return exactly what one Store under that key provided and not be stale; Load never panics; fault-free sequences must hit.",
-   note="Trusted: the simulated file system's fault models (kill: completed calls persist; power loss: metadata ordered, un-synced data torn/zero-filled), compress/gzip and encoding/gob. The cached value is a 4-field gob blob in these tests; the round trip of real sources.Sources and the end-to-end cold/warm build equality are separate tests (see DESIGN).",
+   note="Trusted: the simulated file system's fault models (kill: completed calls persist; power loss: metadata ordered, un-synced data torn/zero-filled), compress/gzip and encoding/gob. The cached value is a 4-field gob blob in these tests; the round trip of real sources.Sources and the end-to-end equality of cold, warm, no-cache, damaged-cache and crashed-then-rebuilt builds of unchanged sources are separate tests (see DESIGN). No workload edits sources between builds: staleness is decided only against the timestamp the caller passes in (DESIGN §13 lists what a bug hunt found beyond that).",
    technique="deterministic simulation with fault injection: simulated disk, crash/fault enumeration at every file-system call plus rapid state-machine exploration against a reference model"),
  "C19": dict(
    engine="govl",
    category="exploration", design_ref="DESIGN.md §4 C19",
    text="Stream facet: the real sourcemapx.Filter is driven as a stream transducer: synthetic streams of code bytes (newlines, multi-byte UTF-8, control bytes other than the magic byte) interleaved with position and identifier hints produced by the real Hint.Pack/WriteTo are pushed through it under enumerated and rapid-generated chunkings into Write calls that never split a hint, with a downstream writer that fails or short-writes at every byte; delivered bytes and mappings must equal an independent position model over the unchunked stream (a prefix of it under downstream faults), and never contain the hint byte. Position facet: generated programs compiled by the tree's CLI, plain and minified: no hint byte in the output, every mapping inside the generated file and inside an existing line of the named original file, and in the simulated event loop - also after the calling function was suspended and resumed - the JavaScript stack frames of marker calls at known Go lines resolve through the map to that file and line.",
-   note="Trusted: the position model, V8's stack format, esbuild. Column units are not asserted (the property does not fix them); for stack frames only file and line are compared. Re-chunking the compiler's own raw hinted streams is covered only indirectly (same Filter code).",
+   note="Trusted: the position model (generated columns in UTF-16 code units, as JavaScript engines report them), V8's stack format, esbuild emitting mappings at token starts. Marker calls sit in 30 statement forms (conditions, tags, case expressions, loop clauses, send and select operands, op-assignments, defer/go arguments, return forms, later lines of a statement), in direct and in resumable (flattened) statements; a frame is resolved with the nearest preceding mapping in (line, column) order and only file and line are compared. Mappings of JavaScript chunks (prelude, .inc.js) must name the same $-identifier on both sides and must not point into the middle of a token. Re-chunking the compiler's own raw hinted streams is covered only indirectly (same Filter code).",
    technique="deterministic simulation of the writer pipeline (seeded chunking schedules and downstream write faults) against a reference position model, plus simulated runs resolving stack frames through emitted maps"),
  "C17": dict(
    engine="govl",
